@@ -21,11 +21,25 @@
 (* and its result [ok |-> BOOLEAN, id |-> Nat, ids |-> Seq(Nat)].           *)
 (*                                                                          *)
 (* Two layers (DESIGN 2.9):                                                 *)
-(*  - declarative: Reach, PageSeq, CountsOk, Content, ResTriples, WriteSet  *)
-(*    and Judge(pre, ghost, call, result, post): the set of clauses of the  *)
-(*    statement that the observed step violates (FreshIds, Frame,           *)
-(*    NoStaleRef, PruneExact, CountsOk, ContentOk, ResMonotone, MaxIdOk     *)
-(*    and the post-state the abstract model prescribes for the call),       *)
+(*  - declarative: Reach, PageSeq, CountsOk, Content, EffRes / ResTriples   *)
+(*    (resources in effect by the ISO rule: nearest Resources up the Parent *)
+(*    chain), WriteSet (the objects a call is documented to write), Aux     *)
+(*    (all of these for one document, computed once per state) and          *)
+(*    Judge(pre, Aux(pre), ghost, call, result, post, Aux(post)): the set   *)
+(*    of clauses of the statement that the observed step violates           *)
+(*      fresh                FreshIds: an allocated id collides with an     *)
+(*                           existing object or an id handed out before     *)
+(*      frame frame.trailer  Frame: a reachable object outside WriteSet (or *)
+(*                           the trailer) was removed or altered            *)
+(*      delete.*             NoStaleRef: where a reference to a deleted     *)
+(*                           object was left (array.dup, array, dict,       *)
+(*                           streamdict, trailer, top)                      *)
+(*      prune                PruneExact                                     *)
+(*      counts maxid         CountsOk, MaxIdOk (reported by the step that   *)
+(*                           breaks them)                                   *)
+(*      content contents.refToArray      ContentOk (ghost content)          *)
+(*      resmono resources.shadow         ResMonotone                        *)
+(*      effect.<Call>        the post-state the abstract model prescribes   *)
 (*    together with the next ghost state.  Only this layer decides.         *)
 (*  - impl-shaped: Impl(d, call, dev) -- the algorithms of creator.rs,      *)
 (*    processor.rs, document.rs, bookmarks.rs transcribed; the switches of  *)
